@@ -646,7 +646,7 @@ func ruleC08KindGroups(c *Ctx) {
 			if call, ok := i.(*ssa.Call); ok {
 				callee := call.Call.StaticCallee()
 				if callee != nil && c.P.InPkg(callee) && (core.FuncName(callee) == "property" || core.FuncName(callee) == "properties") && len(call.Call.Args) > 0 && isSame(call.Call.Args[0]) {
-					if !core.Dominates(keyKindTest, call) {
+					if !dominatesFam(keyKindTest, call) {
 						okDom = false
 					}
 				}
@@ -816,7 +816,7 @@ func ruleC11NumbersFirst2(c *Ctx, rule string) {
 					c.R.Bad(rule, "exactness:"+core.FuncName(fn)+":"+key, c.pos(x), "the closure of Equal extracts a machine number with "+key+" outside the exact extractor: integers beyond 2^53 and numbers that differ in the last bit would compare equal")
 				}
 			case *ssa.BinOp:
-				if (x.Op == token.EQL || x.Op == token.NEQ) && isFloat(x.X.Type()) {
+				if (x.Op == token.EQL || x.Op == token.NEQ) && isFloat(x.X.Type()) && !exactBasicComparison(x) {
 					c.R.Bad(rule, "exactness:"+core.FuncName(fn)+":float-compare", c.pos(x), "floating-point comparison in the closure of Equal")
 				}
 			}
@@ -1619,12 +1619,59 @@ func ruleC11EqualIsEquality(c *Ctx) {
 		n++
 		okAll := true
 		for _, src := range traceSourcesDeep(returnedValue(ret, 0)) {
-			call, isCall := src.(*ssa.Call)
-			if !isCall || call.Call.StaticCallee() != eq {
-				okAll = false
+			if call, isCall := src.(*ssa.Call); isCall && call.Call.StaticCallee() == eq {
+				continue
 			}
+			// a shortcut for two values of exactly the same basic Go type (x.(string) == y.(string), nil == nil):
+			// for those, == is JSON equality; a defined type such as json.Number is not matched by the assertion
+			if exactBasicComparison(src) {
+				continue
+			}
+			okAll = false
 		}
 		c.R.Check(okAll, rule, fmt.Sprintf("Equal:return#%d", n), c.pos(ret), "Equal returns the result of the equality function", "Equal can return an answer that is not the result of the equality function (a shortcut before it): values the shortcut compares by their Go representation (two json.Numbers, by spelling) get an answer that differs from JSON equality")
 	}
 	c.R.Floor(rule, "returns of Equal", n, 1)
+}
+
+// exactBasicComparison: v is a constant, or `a == b` where both operands are the results of type assertions to one
+// and the same unnamed basic type (string, bool, float64 ...), or a comparison of the interface arguments with nil.
+func exactBasicComparison(v ssa.Value) bool {
+	if k, ok := v.(*ssa.Const); ok {
+		_ = k
+		return true
+	}
+	bo, ok := v.(*ssa.BinOp)
+	if !ok || (bo.Op != token.EQL && bo.Op != token.NEQ) {
+		return false
+	}
+	asserted := func(x ssa.Value) types.Type {
+		for _, src := range traceSources(x) {
+			switch y := src.(type) {
+			case *ssa.TypeAssert:
+				return y.AssertedType
+			case *ssa.Extract:
+				if ta, ok := y.Tuple.(*ssa.TypeAssert); ok && y.Index == 0 {
+					return ta.AssertedType
+				}
+			}
+		}
+		return nil
+	}
+	tx, ty := asserted(bo.X), asserted(bo.Y)
+	if tx != nil && ty != nil {
+		bx, ok1 := tx.(*types.Basic)
+		by, ok2 := ty.(*types.Basic)
+		return ok1 && ok2 && bx.Kind() == by.Kind()
+	}
+	// interface == nil
+	if k, ok := bo.Y.(*ssa.Const); ok && k.IsNil() {
+		_, isIface := bo.X.Type().Underlying().(*types.Interface)
+		return isIface
+	}
+	if k, ok := bo.X.(*ssa.Const); ok && k.IsNil() {
+		_, isIface := bo.Y.Type().Underlying().(*types.Interface)
+		return isIface
+	}
+	return false
 }
